@@ -19,6 +19,7 @@ import (
 	"github.com/tonkeeper/tongo/tl"
 	"github.com/tonkeeper/tongo/tlb"
 	"verifharness/h"
+	"verifharness/tldesc"
 )
 
 func init() {
@@ -54,7 +55,7 @@ func init() {
 }
 
 func genC08(g *h.G) {
-	gc := &genCtx{g: g, sc: loadTLSchema(), noSeed: map[string]bool{}, perType: map[string]int{}, tlbStats: map[string]*tlbStat{}}
+	gc := &genCtx{g: g, sc: tldesc.Load(repoDir()), forceAlt: -1, noSeed: map[string]bool{}, perType: map[string]int{}, tlbStats: map[string]*tlbStat{}}
 	gc.genFlags() // queued, emitted between the other lines
 	gc.genTL()
 	gc.genHelpers()
@@ -62,6 +63,7 @@ func genC08(g *h.G) {
 	gc.genTLBModel()
 	gc.genProofs()
 	gc.genABIStacks()
+	gc.genDeep()
 	for len(gc.pendingFlags) > 0 {
 		gc.emitPendingFlag()
 	}
